@@ -317,7 +317,17 @@ func c04(c *report.Check) {
 	if c.Thorough() {
 		ns = 48
 	}
-	sum := e2.Drive(c, []e2.Plan{{Scns: scns, Bound: -1, TotalBound: bound, NShards: ns}}, 0)
+	// a KV client racing a join while the periodic maintenance of every node runs as well
+	const mA, mB = uint64(1) << 44, uint64(1) << 45
+	mscn := []string{
+		fmt.Sprintf("ring=%s|join:%d:%d|maint=1#key=0#c=put:x1,get@%d", joinU([]uint64{mA, mB}), mA+(mB-mA)/2, mA, mB),
+		fmt.Sprintf("ring=%s|join:%d:%d|maint=1#key=0#c=app:cX,list@%d", joinU([]uint64{mA, mB}), mA+(mB-mA)/2, mA, mA),
+	}
+	mb := bound - 1
+	sum := e2.Drive(c, []e2.Plan{{Scns: scns, Bound: -1, TotalBound: bound, NShards: ns}, {Scns: mscn, Bound: -1, TotalBound: mb, NShards: ns}}, 0)
+	c.Set("scenarios_with_maintenance_thread", len(mscn))
+	c.Set("deviation_bound_with_maintenance_thread", mb)
+	scns = append(append([]string{}, scns...), mscn...)
 	for _, v := range sum.Violations {
 		cls := v.Violation
 		if i := strings.Index(cls, ":"); i > 0 {
